@@ -250,6 +250,14 @@ func (w *World) assignSet(e *Enc, pkg *types.Package, ct *FuncContract) (map[str
 		case "all":
 			return set, true
 		}
+		if strings.HasPrefix(a, "cell(") && strings.HasSuffix(a, ")") {
+			ty, err := w.resolveType(pkg, a[5:len(a)-1])
+			if err != nil {
+				panic(unsupported{fmt.Sprintf("assigns %q: %v", a, err)})
+			}
+			set[e.cellComp(ty)] = true
+			continue
+		}
 		ty, err := w.resolveType(pkg, a)
 		if err != nil {
 			panic(unsupported{fmt.Sprintf("assigns %q: %v", a, err)})
